@@ -422,7 +422,11 @@ func (p *partition) Subscribe(ctx context.Context, req *client.SubscribeRequest)
 		return nil, st
 	}
 
-	if stopOffset != waitForNewMessages && stopOffset < startOffset {
+	// A subscription without a stop position on a readonly partition ends at
+	// the end of the log, which is not a requested range that can be invalid:
+	// starting at or beyond the end simply ends with the readonly status.
+	if req.StopPosition != client.StopPosition_STOP_ON_CANCEL &&
+		stopOffset != waitForNewMessages && stopOffset < startOffset {
 		return nil, status.New(
 			codes.InvalidArgument, fmt.Sprintf("Stop offset is before start offset: %d < %d",
 				stopOffset, startOffset))
